@@ -86,6 +86,30 @@ func selName(cmd command) string {
 	return ""
 }
 
+//@ pure
+func selNum(cmd command) uint32 {
+	if s, ok := cmd.(*SelectCommand); ok {
+		return s.data.NumMessages
+	}
+	return 0
+}
+
+//@ pure
+func selFlags(cmd command) []imap.Flag {
+	if s, ok := cmd.(*SelectCommand); ok {
+		return s.data.Flags
+	}
+	return nil
+}
+
+//@ pure
+func selPermFlags(cmd command) []imap.Flag {
+	if s, ok := cmd.(*SelectCommand); ok {
+		return s.data.PermanentFlags
+	}
+	return nil
+}
+
 // capEnabled: the capability was switched on with ENABLE (UNAUTHENTICATE resets
 // all of them, RFC 8437: the client must no longer use e.g. UTF-8 quoting).
 //
@@ -97,9 +121,13 @@ func capEnabled(c *Client, k imap.Cap) bool {
 
 // completeCommand performs exactly the state transition of the completed
 // command: none on failure, none for commands that do not change the state.
+// A successful SELECT installs a new summary made of exactly what this
+// command's responses carried (nothing inherited from the previous mailbox).
+// Every pending continuation request is either kept or cancelled - none is
+// dropped silently, which would leave its command waiting for ever.
 //
 //@ func (c *Client) completeCommand(cmd command, err error)
-//@   props C12:post,pre@call C17:post,pre@call
+//@   props C12:post,pre@call,inv-init,inv-step C17:post,pre@call
 //@   ghost-inc completed when true
 //@   ensures err != nil || !changesState(cmd) ==> c.state == old(c.state) && c.mailbox == old(c.mailbox)
 //@   ensures err == nil && isAuthCmd(cmd) ==> c.state == imap.ConnStateAuthenticated && c.mailbox == nil
@@ -108,6 +136,11 @@ func capEnabled(c *Client, k imap.Cap) bool {
 //@   ensures[C18] err == nil && isUnauthCmd(cmd) ==> forall k imap.Cap :: !capEnabled(c, k)
 //@   ensures err == nil && isLogoutCmd(cmd) ==> c.state == imap.ConnStateLogout && c.mailbox == nil
 //@   ensures err == nil && isSelectCmd(cmd) ==> c.state == imap.ConnStateSelected && c.mailbox != nil && c.mailbox.Name == old(selName(cmd))
+//@   ensures err == nil && isSelectCmd(cmd) ==> __freshPtr(c.mailbox) && c.mailbox.NumMessages == old(selNum(cmd)) && __same(c.mailbox.Flags, old(selFlags(cmd))) && __same(c.mailbox.PermanentFlags, old(selPermFlags(cmd)))
+//@   ensures len(c.contReqs) + (__ghost("cancelled") - old(__ghost("cancelled"))) == old(len(c.contReqs))
+//@   loop 0 vars (filtered []continuationRequest, i int)
+//@   loop 0 invariant -1 <= i && len(filtered) + (__ghost("cancelled") - old(__ghost("cancelled"))) == i+1
+//@   loop 0 invariant len(c.contReqs) == old(len(c.contReqs))
 
 // A unilateral EXISTS updates the message count of the summary and nothing else.
 //
@@ -386,7 +419,7 @@ func inStrings(l []string, n int, s string) bool {
 // command of a kind, so the order is part of the routing).
 //
 //@ func (c *Client) deletePendingCmdByTag(tag string) (result command)
-//@   props C12:post
+//@   props C12:post,inv-init,inv-step
 //@   requires c != nil
 //@   ensures result == nil ==> len(c.pendingCmds) == old(len(c.pendingCmds)) && (forall k int :: 0 <= k && k < len(c.pendingCmds) ==> c.pendingCmds[k] == old(c.pendingCmds[k]))
 //@   ensures result != nil ==> len(c.pendingCmds) == old(len(c.pendingCmds))-1
